@@ -9,7 +9,7 @@ analysed in their calling context (inlined, acyclic, depth-bounded); external ca
 Every possible panic is an *obligation*: Assert terminators, modelled preconditions of std/byteorder calls,
 reaching a panic call.  An obligation is discharged when it is entailed in every state reaching it.
 """
-import re
+import os, re, time
 import heapq
 from absint.lin import Lin, System, join as sys_join, widen as sys_widen, leq as sys_leq
 from absint.values import *
@@ -101,6 +101,8 @@ class Interp:
         self.opaque = ()             # ADT paths materialised as uninterpreted terms with identity
         self.pre_hooks = {}          # workspace callee key -> fn(interp, state, caller frame, args) before the call
         self.local_models = {}       # workspace callee key -> model (assume-guarantee summaries supplied by a rule)
+        self.budget_s = int(os.environ.get("STUNLINT_BUDGET_S", "300"))      # CPU seconds of this process per analysed entry (independent of machine load)
+        self.deadline = time.process_time() + self.budget_s
         self.purefun = {}            # canonical result variable of a pure integer function -> its argument variables
         self.snapshots = {}
         self.byte_defs = False       # numbers read from identified contents are defined over their bytes (header rules)
@@ -1544,6 +1546,9 @@ class Interp:
         while heap:
             _, bb = heapq.heappop(heap)
             queued.discard(bb)
+            if time.process_time() > self.deadline:
+                # fail closed, distinctly: the analysis of this entry did not finish inside its budget
+                raise FailClosed("analysis budget of %d CPU-seconds exceeded in %s" % (self.budget_s, body.key))
             if bb == 0 and first:
                 first = False
                 parts = {self.partition_key(st0, fr): st0}
